@@ -762,7 +762,7 @@ def exotic_stream(run, rng, count, renderer, opts=None):
         text, _ = renderer(m, rng, opts)
         text = exotic_mutation(text, rng)
         line, real, _ = R.op_moltext(text)
-        run.corr(line, real, "exact")
+        run.corr(line, real, "atom-order")
         run.stats["exotic"] += 1
 
 
@@ -777,7 +777,7 @@ def work_C07(run, rng, budget):
                 if v and v != "none":
                     run.stats[f"opt:{key}={v}" if isinstance(v, str) else f"opt:{key}"] += 1
             line, real, rinfo = R.op_moltext(text)
-            run.corr(line, real, "exact")
+            run.corr(line, real, "atom-order")
             lines = text.splitlines()
             run.corr(*R.op_v3000(lines), "exact")
             if k == 0:
@@ -813,7 +813,7 @@ def work_C07(run, rng, budget):
             ls = ls[: rng.randint(0, 6)]
         run.stats["malformed"] += 1
         line, real, _ = R.op_moltext("\n".join(ls))
-        run.corr(line, real, "exact")
+        run.corr(line, real, "atom-order")
     # star atoms in the forms the reader treats specially: a bond to a star atom without ENDPTS (polymers: ignored),
     # an ENDPTS list whose count is wrong, a bond between two star atoms, ENDPTS before / after other keywords
     for _ in range(6 * budget):
@@ -838,12 +838,12 @@ def work_C07(run, rng, budget):
                   f"M  V30 COUNTS {n + 2} 2 0 0 0", "M  V30 BEGIN ATOM"] + atoms + \
                  ["M  V30 END ATOM", "M  V30 BEGIN BOND", "M  V30 1 1 1 2", bl, "M  V30 END BOND", "M  V30 END CTAB", "M  END"]
             line, real, _ = R.op_moltext("\n".join(ls))
-            run.corr(line, real, "exact")
+            run.corr(line, real, "atom-order")
             run.stats["star_form:" + kind] += 1
     for f in repo_molfiles():
         text = open(f).read()
         line, real, _ = R.op_moltext(text)
-        run.corr(line, real, "exact")
+        run.corr(line, real, "atom-order")
         run.stats["repo_file"] += 1
     return "abstract molecules rendered as V3000 from the CTfile specification (continuation at arbitrary split points incl. " \
            "inside tokens and after '-', blank runs, shuffled key=value properties, sparse/large atom indices, other spec " \
@@ -904,10 +904,10 @@ def work_C08(run, rng, budget):
             if v:
                 run.stats[f"opt:{key}"] += 1
         line, real, r2 = R.op_moltext(t2)
-        run.corr(line, real, "exact")
+        run.corr(line, real, "atom-order")
         run.corr(*R.op_v2000(t2.splitlines()), "exact")
         line, real, r3 = R.op_moltext(t3)
-        run.corr(line, real, "exact")
+        run.corr(line, real, "atom-order")
         g2, g3 = r2.get("graph"), r3.get("graph")
         run.case(("C08", t2), m.n() >= 1)
         if g2 is None:
@@ -933,7 +933,7 @@ def work_C08(run, rng, budget):
         run.stats[f"attrline_entries:{n}"] += 1
     for f in repo_molfiles("v2000"):
         line, real, _ = R.op_moltext(open(f).read())
-        run.corr(line, real, "exact")
+        run.corr(line, real, "atom-order")
     return "abstract molecules rendered as V2000 (charge codes vs M  CHG/RAD lines with decoy codes, 1-8 entries per property " \
            "line over several lines, D/T symbols together with M  ISO lines, unrelated property lines, atom lists, short " \
            "lines, CRLF) and as V3000; both read by the real readers and compared with the molecule and with each other; " \
@@ -974,7 +974,7 @@ def work_C09(run, rng, budget):
         nwrap = sum(1 for l in text.split("\n") if l.endswith("-"))
         run.stats["wrapped_lines:" + ("0" if nwrap == 0 else "1-3" if nwrap <= 3 else "4+")] += 1
         line, real, rinfo = R.op_moltext(text)
-        run.corr(line, real, "exact")
+        run.corr(line, real, "atom-order")
         h = rinfo.get("graph")
         if h is None:
             run.fail("written-molfile-rejected", real, {"mol": mol_repr(m), "text": text})
@@ -1415,7 +1415,7 @@ def work_C16(run, rng, budget):
         run.stats["listing_order:" + ("label" if list(g.nodes) == sorted(g.nodes) else "other")] += 1
         before = P.show_graph(g)
         line, real, info = R.op_permute(g, seed)
-        run.corr(line, real, "exact")
+        run.corr(line, real, "atom-order")
         r = info.get("result")
         run.case(("C16", mol_repr(m), seed), m.n() >= 2)
         if r is None:
@@ -1509,7 +1509,7 @@ def work_corpus(run, prop, rng):
             text = CP2.v3000_text(c) if kind == "v3000_atoms" else c["text"]
             m = CP.mol_of(c)
             line, real, info = R.op_moltext(text)
-            run.corr(line, real, "exact")
+            run.corr(line, real, "atom-order")
             gg = info.get("graph")
             if gg is None:
                 run.fail("conformant-molfile-rejected", f"corpus {c['id']}: {real}", {"text": text})
